@@ -240,6 +240,34 @@ pub fn c09(ctx: &Ctx, subj: &dyn DynSubject, ty: &Ty, rep: &mut Report) {
             }
             write(&bytes)?;
         }
+        // (c') the copying loaders hold a private copy: overwriting the file afterwards (also a file that was
+        // read-only when it was loaded) does not change the structure
+        for (n, loader) in [Loader::LoadMem, Loader::LoadMmap].into_iter().enumerate() {
+            if !cfg!(feature = "mmap") && loader == Loader::LoadMmap {
+                continue;
+            }
+            write(&bytes)?;
+            let read_only = (ent.pick(2) + n) % 2 == 0;
+            if read_only {
+                use std::os::unix::fs::PermissionsExt;
+                let _ = std::fs::set_permissions(&path, std::fs::Permissions::from_mode(0o444));
+            }
+            log.extra_evals += 1;
+            log.classes.push(if read_only { "overwritten-after-load:read-only-file".into() } else { "overwritten-after-load".into() });
+            match guard(|| subj.load(loader, &path, 0, Script::OverwriteAfterLoad)) {
+                Ok(Ok(o)) if o.val == *v => {}
+                other => {
+                    let _ = std::fs::remove_file(&path);
+                    return Err(Fail::new(
+                        &format!("loaded-structure-follows-the-file:{:?}", loader),
+                        format!("{:?} of a {} file, then every byte of the file overwritten in place: the loaded structure is no longer the stored value: {:?}", loader, if read_only { "read-only" } else { "writable" }, other.map(|r| r.map(|o| o.val.show()).map_err(|e| format!("{:#}", e)))),
+                    )
+                    .env(json!({"loader": format!("{:?}", loader), "read_only": read_only})));
+                }
+            }
+            let _ = std::fs::remove_file(&path);
+        }
+        write(&bytes)?;
         // (c) stability is observed through `Script`s that move the case and re-read it (values compared above) and
         // by `prefix_is_file` in the C08 check; here: interleave other allocations and loads between two reads
         if cfg!(epserde_verif) {
